@@ -21,17 +21,72 @@ type factFile struct {
 	files map[string]*ast.File // relative path -> file
 }
 
+// the packages the model covers; every non-test file of each is read, so that a function or a table
+// that moves to another file of its package keeps its facts
+var factPkgs = []string{".", "internal/option", "internal/help", "internal/sliceiterator", "dag", "text"}
+
 func parseRepo(repo string) (*factFile, error) {
 	ff := &factFile{fset: token.NewFileSet(), files: map[string]*ast.File{}}
-	for _, rel := range []string{"isoption.go", "api.go", "user.go", "user_options.go", "user_help.go", "errors.go", "helpers.go",
-		"internal/option/option.go", "internal/help/help.go", "internal/sliceiterator/sliceiterator.go", "dag/dag.go", "text/variables.go"} {
-		f, err := parser.ParseFile(ff.fset, filepath.Join(repo, rel), nil, parser.ParseComments)
+	for _, dir := range factPkgs {
+		ents, err := ioutil.ReadDir(filepath.Join(repo, dir))
 		if err != nil {
 			return nil, err
 		}
-		ff.files[rel] = f
+		for _, e := range ents {
+			n := e.Name()
+			if e.IsDir() || !strings.HasSuffix(n, ".go") || strings.HasSuffix(n, "_test.go") || strings.HasPrefix(n, "verif_") {
+				continue
+			}
+			rel := filepath.ToSlash(filepath.Join(dir, n))
+			f, err := parser.ParseFile(ff.fset, filepath.Join(repo, rel), nil, parser.ParseComments)
+			if err != nil {
+				return nil, err
+			}
+			ff.files[rel] = f
+		}
 	}
 	return ff, nil
+}
+
+func pkgDirOf(rel string) string {
+	if i := strings.LastIndex(rel, "/"); i >= 0 {
+		return rel[:i]
+	}
+	return "."
+}
+
+// files of one package, in name order
+func (ff *factFile) pkg(dir string) []*ast.File {
+	var rels []string
+	for rel := range ff.files {
+		if pkgDirOf(rel) == dir {
+			rels = append(rels, rel)
+		}
+	}
+	sort.Strings(rels)
+	out := make([]*ast.File, len(rels))
+	for i, rel := range rels {
+		out[i] = ff.files[rel]
+	}
+	return out
+}
+
+func (ff *factFile) findFuncPkg(dir, name string) *ast.FuncDecl {
+	for _, f := range ff.pkg(dir) {
+		if fd := findFunc(f, name); fd != nil {
+			return fd
+		}
+	}
+	return nil
+}
+
+func (ff *factFile) iotaOrderPkg(dir, typeName string) []string {
+	for _, f := range ff.pkg(dir) {
+		if l := iotaOrder(f, typeName); len(l) > 0 {
+			return l
+		}
+	}
+	return nil
 }
 
 func leanStr(s string) string {
@@ -157,9 +212,11 @@ type kindRow struct {
 
 // the switch in option.New
 func kindTable(ff *factFile) []kindRow {
-	f := ff.files["internal/option/option.go"]
-	fd := findFunc(f, "New")
+	fd := ff.findFuncPkg("internal/option", "New")
 	var rows []kindRow
+	if fd == nil {
+		return rows
+	}
 	ast.Inspect(fd.Body, func(n ast.Node) bool {
 		sw, ok := n.(*ast.SwitchStmt)
 		if !ok {
@@ -277,7 +334,7 @@ func mapRanges(ff *factFile) []mapRange {
 				if !names[last] {
 					return true
 				}
-				mr := mapRange{file: rel, fn: fd.Name.Name, expr: last} // the ranged map by its field / variable name
+				mr := mapRange{file: pkgDirOf(rel), fn: fd.Name.Name, expr: last} // package, function, the ranged map by its field / variable name
 				// sort call after the loop in the same function
 				ast.Inspect(fd.Body, func(m ast.Node) bool {
 					if ce, ok := m.(*ast.CallExpr); ok && ce.Pos() > rs.End() {
@@ -319,16 +376,18 @@ func textVars(ff *factFile) map[string]string {
 		}
 		return "?"
 	}
-	for _, d := range ff.files["text/variables.go"].Decls {
-		gd, ok := d.(*ast.GenDecl)
-		if !ok || gd.Tok != token.VAR {
-			continue
-		}
-		for _, s := range gd.Specs {
-			vs := s.(*ast.ValueSpec)
-			for i, n := range vs.Names {
-				if i < len(vs.Values) {
-					out[n.Name] = eval(vs.Values[i])
+	for _, f := range ff.pkg("text") {
+		for _, d := range f.Decls {
+			gd, ok := d.(*ast.GenDecl)
+			if !ok || gd.Tok != token.VAR {
+				continue
+			}
+			for _, s := range gd.Specs {
+				vs := s.(*ast.ValueSpec)
+				for i, n := range vs.Names {
+					if i < len(vs.Values) {
+						out[n.Name] = eval(vs.Values[i])
+					}
 				}
 			}
 		}
@@ -337,8 +396,8 @@ func textVars(ff *factFile) map[string]string {
 }
 
 // switch on the option type inside a function: the kinds of each case clause
-func switchKinds(ff *factFile, rel, fn string, tag string) [][]string {
-	fd := findFunc(ff.files[rel], fn)
+func switchKinds(ff *factFile, dir, fn string, tag string) [][]string {
+	fd := ff.findFuncPkg(dir, fn)
 	var out [][]string
 	if fd == nil {
 		return out
@@ -367,9 +426,13 @@ func switchKinds(ff *factFile, rel, fn string, tag string) [][]string {
 // switchKindsAnywhere finds, in any function of the file except those named in skip, the first switch on
 // an option type whose clauses mention `mention`; `default` clauses are dropped. (A refactoring that
 // moves the switch into a helper keeps the fact.)
-func switchKindsAnywhere(ff *factFile, rel string, skip map[string]bool, mention string) [][]string {
+func switchKindsAnywhere(ff *factFile, dir string, skip map[string]bool, mention string) [][]string {
 	var out [][]string
-	for _, d := range ff.files[rel].Decls {
+	var decls []ast.Decl
+	for _, f := range ff.pkg(dir) {
+		decls = append(decls, f.Decls...)
+	}
+	for _, d := range decls {
 		fd, ok := d.(*ast.FuncDecl)
 		if !ok || fd.Body == nil || skip[fd.Name.Name] || len(out) > 0 {
 			continue
@@ -416,10 +479,13 @@ func leanStrListList(l [][]string) string {
 }
 
 func dagFacts(ff *factFile) (doneCap, semCap string, statusWrites []string, errAppends []string, goFirst []string, defaults map[string]string) {
-	f := ff.files["dag/dag.go"]
+	var decls []ast.Decl
+	for _, f := range ff.pkg("dag") {
+		decls = append(decls, f.Decls...)
+	}
 	defaults = map[string]string{}
 	seenAppend := map[string]bool{}
-	for _, d := range f.Decls {
+	for _, d := range decls {
 		fd, ok := d.(*ast.FuncDecl)
 		if !ok || fd.Body == nil {
 			continue
@@ -531,33 +597,45 @@ func runFactgen(repo, outPath string) int {
 		b.WriteString(fmt.Sprintf("  (%s, %s, %d, %d, %v)%s\n", leanStr(r.name), leanStr(r.argName), r.min, r.max, r.optional, sep))
 	}
 	b.WriteString("]\n\n")
-	b.WriteString("def optionTypeOrder : List String := " + leanStrList(iotaOrder(ff.files["internal/option/option.go"], "Type")) + "\n")
-	b.WriteString("def modeOrder : List String := " + leanStrList(iotaOrder(ff.files["user.go"], "Mode")) + "\n")
-	b.WriteString("def unknownModeOrder : List String := " + leanStrList(iotaOrder(ff.files["user.go"], "UnknownMode")) + "\n")
-	b.WriteString("def runStatusOrder : List String := " + leanStrList(iotaOrder(ff.files["dag/dag.go"], "runStatus")) + "\n")
-	b.WriteString("def visitStatusOrder : List String := " + leanStrList(iotaOrder(ff.files["dag/dag.go"], "visitStatus")) + "\n\n")
+	b.WriteString("def optionTypeOrder : List String := " + leanStrList(ff.iotaOrderPkg("internal/option", "Type")) + "\n")
+	b.WriteString("def modeOrder : List String := " + leanStrList(ff.iotaOrderPkg(".", "Mode")) + "\n")
+	b.WriteString("def unknownModeOrder : List String := " + leanStrList(ff.iotaOrderPkg(".", "UnknownMode")) + "\n")
+	b.WriteString("def runStatusOrder : List String := " + leanStrList(ff.iotaOrderPkg("dag", "runStatus")) + "\n")
+	b.WriteString("def visitStatusOrder : List String := " + leanStrList(ff.iotaOrderPkg("dag", "visitStatus")) + "\n\n")
 	// regex
 	rx := "?"
-	ast.Inspect(ff.files["isoption.go"], func(n ast.Node) bool {
-		if vs, ok := n.(*ast.ValueSpec); ok && len(vs.Names) == 1 && vs.Names[0].Name == "isOptionRegex" {
-			if ce, ok := vs.Values[0].(*ast.CallExpr); ok {
-				if bl, ok := ce.Args[0].(*ast.BasicLit); ok {
-					rx, _ = strconv.Unquote(bl.Value)
+	for _, f := range ff.pkg(".") {
+		ast.Inspect(f, func(n ast.Node) bool {
+			if vs, ok := n.(*ast.ValueSpec); ok && len(vs.Names) == 1 && vs.Names[0].Name == "isOptionRegex" && len(vs.Values) == 1 {
+				if ce, ok := vs.Values[0].(*ast.CallExpr); ok && len(ce.Args) > 0 {
+					if bl, ok := ce.Args[0].(*ast.BasicLit); ok {
+						rx, _ = strconv.Unquote(bl.Value)
+					}
 				}
 			}
-		}
-		return true
-	})
+			return true
+		})
+	}
 	b.WriteString("def isOptionRegex : String := " + leanStr(rx) + "\n")
+	// the other compiled pattern of the package (not one of the isOptionRegex* variables): the COMP_LINE
+	// word separator, wherever it is compiled
 	rx2 := "?"
-	ast.Inspect(ff.files["user.go"], func(n ast.Node) bool {
-		if ce, ok := n.(*ast.CallExpr); ok && exprStr(ff.fset, ce.Fun) == "regexp.MustCompile" && rx2 == "?" {
-			if bl, ok := ce.Args[0].(*ast.BasicLit); ok {
-				rx2, _ = strconv.Unquote(bl.Value)
+	for _, f := range ff.pkg(".") {
+		skip := map[ast.Node]bool{}
+		ast.Inspect(f, func(n ast.Node) bool {
+			if vs, ok := n.(*ast.ValueSpec); ok && len(vs.Names) == 1 && strings.HasPrefix(vs.Names[0].Name, "isOptionRegex") {
+				for _, v := range vs.Values {
+					skip[v] = true
+				}
 			}
-		}
-		return true
-	})
+			if ce, ok := n.(*ast.CallExpr); ok && !skip[n] && exprStr(ff.fset, ce.Fun) == "regexp.MustCompile" && rx2 == "?" && len(ce.Args) > 0 {
+				if bl, ok := ce.Args[0].(*ast.BasicLit); ok {
+					rx2, _ = strconv.Unquote(bl.Value)
+				}
+			}
+			return true
+		})
+	}
 	b.WriteString("def compLineSplitRegex : String := " + leanStr(rx2) + "\n\n")
 	// text vars
 	tv := textVars(ff)
@@ -577,13 +655,13 @@ func runFactgen(repo, outPath string) int {
 	b.WriteString("]\n\n")
 	// switches on option kinds
 	b.WriteString("/-- case clauses of the option-type switch in help.Synopsis -/\n")
-	b.WriteString("def synopsisSwitch : List (List String) := " + leanStrListList(switchKindsAnywhere(ff, "internal/help/help.go", map[string]bool{}, "BoolType")) + "\n")
+	b.WriteString("def synopsisSwitch : List (List String) := " + leanStrListList(switchKindsAnywhere(ff, "internal/help", map[string]bool{}, "BoolType")) + "\n")
 	b.WriteString("/-- case clauses of the lookahead switch in the greedy loop of parseCLIArgs -/\n")
-	b.WriteString("def greedySwitch : List (List String) := " + leanStrListList(switchKindsAnywhere(ff, "api.go", map[string]bool{"AddChildOption": true}, "IntRepeatType")) + "\n")
+	b.WriteString("def greedySwitch : List (List String) := " + leanStrListList(switchKindsAnywhere(ff, ".", map[string]bool{"AddChildOption": true}, "IntRepeatType")) + "\n")
 	b.WriteString("/-- case clauses of the switch in Option.Save (with arguments) -/\n")
-	sk := switchKinds(ff, "internal/option/option.go", "Save", "OptType")
+	sk := switchKinds(ff, "internal/option", "Save", "OptType")
 	b.WriteString("def saveSwitch : List (List String) := " + leanStrListList(sk) + "\n")
-	b.WriteString("def addChildOptionSwitch : List (List String) := " + leanStrListList(switchKinds(ff, "api.go", "AddChildOption", "OptType")) + "\n\n")
+	b.WriteString("def addChildOptionSwitch : List (List String) := " + leanStrListList(switchKinds(ff, ".", "AddChildOption", "OptType")) + "\n\n")
 	// map ranges
 	mrs := mapRanges(ff)
 	b.WriteString("/-- every `range` over a map-typed expression: (file, function, expression, a sort call follows, the loop body returns) -/\n")
@@ -606,9 +684,23 @@ func runFactgen(repo, outPath string) int {
 	b.WriteString("def goroutineHeads : List String := " + leanStrList(gofirst) + "\n")
 	b.WriteString("def maxParallelDefault : String := " + leanStr(defaults["maxParallel"]) + "\n\n")
 	// imports
-	for _, p := range [][2]string{{"importsIsOption", "isoption.go"}, {"importsApi", "api.go"}, {"importsUser", "user.go"}, {"importsUserOptions", "user_options.go"},
-		{"importsUserHelp", "user_help.go"}, {"importsOption", "internal/option/option.go"}, {"importsHelp", "internal/help/help.go"}} {
-		b.WriteString("def " + p[0] + " : List String := " + leanStrList(importsOf(ff.files[p[1]])) + "\n")
+	// imports per package (the signal handling in interrupt.go is outside the model)
+	for _, p := range [][2]string{{"importsRoot", "."}, {"importsOption", "internal/option"}, {"importsHelp", "internal/help"}} {
+		set := map[string]bool{}
+		for rel, f := range ff.files {
+			if pkgDirOf(rel) != p[1] || rel == "interrupt.go" {
+				continue
+			}
+			for _, im := range importsOf(f) {
+				set[im] = true
+			}
+		}
+		var l []string
+		for im := range set {
+			l = append(l, im)
+		}
+		sort.Strings(l)
+		b.WriteString("def " + p[0] + " : List String := " + leanStrList(l) + "\n")
 	}
 	b.WriteString("\nend Generated\n")
 	if outPath == "" {
